@@ -43,9 +43,10 @@ void harness(void)
 	 *  1: ab, ba, ..., a   -- the second name does not fit the 5-byte string pool by exactly its terminating NUL (3 + 3 bytes)
 	 *  2: a, b, ab, lookups -- the entry table grows twice (capacity 1 -> 2 -> 4) with re-hashing
 	 *  3: a, b, ba; index cache valid; delete the LAST entry; delete a middle entry
+	 *  4: ab, a (pool of 5 bytes full), delete ab (more than half of the pool is dead), b -- the pool is COMPACTED, then lookup a
 	 * after every operation the whole view is compared with the reference set */
 	{
-		static const int seq[3][5][2] = { { {0,2},{0,3},{2,2},{2,3},{0,0} }, { {0,0},{0,1},{0,2},{2,1},{2,3} }, { {0,0},{0,1},{0,3},{1,3},{1,0} } };
+		static const int seq[4][5][2] = { { {0,2},{0,3},{2,2},{2,3},{0,0} }, { {0,0},{0,1},{0,2},{2,1},{2,3} }, { {0,0},{0,1},{0,3},{1,3},{1,0} }, { {0,2},{0,0},{1,2},{0,1},{2,0} } };
 		for (step = 0; step < 5; step++) {
 			int op = seq[SCENARIO - 1][step][0], k = seq[SCENARIO - 1][step][1], pind, hit;
 			if (op == 0) { T.index_ok = 1; rv = ILLsymboltab_register(&T, names[k], step, &pind, &hit); ASSERT(rv == 0 && hit == present[k], "C06/C07: register succeeds and reports duplicates"); if (!present[k]) { present[k] = 1; count++; } }
